@@ -210,6 +210,9 @@ func c09CLI(c *fw.Ctx) fw.Outcome {
 	if d == 0 {
 		d = 1e6
 	}
+	if r.P(1, 3) {
+		d += r.I64n(1e6) // a shift that is not a whole number of milliseconds: the file then holds the shifted instants truncated
+	}
 	if r.Bool() {
 		fw.Shuffle(r, cs) // the cues of a file need not be ordered by start: sync keeps the file's order
 	}
@@ -240,6 +243,7 @@ func c09CLI(c *fw.Ctx) fw.Outcome {
 	}
 	for k, x := range exp {
 		it := got.Items[k]
+		x.s, x.e = x.s/1e6*1e6, x.e/1e6*1e6 // SubRip holds milliseconds (results are never negative)
 		if int64(it.StartAt) != x.s || int64(it.EndAt) != x.e || itemText(it) != cs[x.orig].T {
 			return fw.Bad(key, nil, "CLI sync -s %v on %s: cue %d is [%d,%d) %q, specification says [%d,%d) %q", time.Duration(d), fmtCues(cs), k, it.StartAt, it.EndAt, itemText(it), x.s, x.e, cs[x.orig].T)
 		}
